@@ -201,6 +201,7 @@ func runC11(c *Check) {
 	c.ruleFlagRaisedBehindItsArgument("R11")
 	c.rulePooledBufferNotStored("R12", 8)
 	c.ruleUnconfirmedSetKeepsEveryEntry("R13")
+	c.ruleTxStateStoredAsGiven("R15")
 	c.whoMayCall("R14", "storage.SaveTxState", map[string]string{"spynode.(*Node).processUnconfirmedTx": "delivery of an unconfirmed tx and its conflicts", "spynode.(*Node).ProcessBlock": "confirmations and cancellations", "spynode.(*Node).provideBlock": "refeed", "spynode.(*Node).checkTxDelays": "safe after the delay"}, 6)
 	c.Touch(c.P.Fn("storage.FetchTxState"))
 	// the list helpers ProcessBlock uses to take a confirmed tx out of the unconfirmed list are part of the
